@@ -762,10 +762,20 @@ public:
       dom_var_alloc_t palloc(left._alloc, right._alloc);
 
       // Build up the mapping of right onto left, variable by variable.
-      // Assumption: the set of variables in left & right are common.
+      // A variable bound only on the right is unconstrained on the
+      // left: it must be compared as well.
+      std::vector<variable_t> vars;
       for (auto p : left._var_map) {
-        if (!left._ttbl.map_leq(right._ttbl, left.term_of_var(p.first),
-                                right.term_of_var(p.first), gen_map))
+        vars.push_back(p.first);
+      }
+      for (auto p : right._var_map) {
+        if (left._var_map.find(p.first) == left._var_map.end()) {
+          vars.push_back(p.first);
+        }
+      }
+      for (auto const &v : vars) {
+        if (!left._ttbl.map_leq(right._ttbl, left.term_of_var(v),
+                                right.term_of_var(v), gen_map))
           return false;
       }
       // We now have a mapping of reachable y-terms to x-terms.
